@@ -791,26 +791,103 @@ fn observed_levels() -> Result<[Vec<u8>; 3], String> {
 
 fn write_tables(cfg: &Cfg, names: &[String]) {
     for name in names {
-        if name != "SixelLevel" {
-            eprintln!("unknown table {name}");
-            std::process::exit(2);
-        }
-        let tabs = match observed_levels() {
-            Ok(t) => t,
-            Err(e) => {
-                eprintln!("cannot observe the level tables: {e}");
-                std::process::exit(1);
+        let src = match name.as_str() {
+            "SixelLevel" => {
+                let tabs = match observed_levels() {
+                    Ok(t) => t,
+                    Err(e) => {
+                        eprintln!("cannot observe the level tables: {e}");
+                        std::process::exit(1);
+                    }
+                };
+                let tab = |n: &str, t: &Vec<u8>| format!("def {n} : List Nat := [{}]\n", t.iter().map(|v| v.to_string()).collect::<Vec<_>>().join(", "));
+                format!(
+                    "/-! GENERATED by `c12 tables` from the current build of /repo: the level (0..100) that\n`SixelImageHandler::draw` writes into the palette definition for a source channel value 0..255,\nobserved by drawing single-colour images. Do not edit. -/\nnamespace SurfModel.Generated.SixelLevel\n{}{}{}end SurfModel.Generated.SixelLevel\n",
+                    tab("levelR", &tabs[0]),
+                    tab("levelG", &tabs[1]),
+                    tab("levelB", &tabs[2])
+                )
+            }
+            "SixelCache" => format!(
+                "/-! GENERATED by `c12 tables` from the current build of /repo: the private constant `IMAGE_CACHE_SIZE`\nof src/image.rs (budget in bytes of the cache of encoded sixel images), read through the hook\n`image::verif_c12::image_cache_size`. Do not edit. -/\nnamespace SurfModel.Generated.SixelCache\ndef imageCacheSize : Nat := {}\nend SurfModel.Generated.SixelCache\n",
+                surf_n_term::image::verif_c12::image_cache_size()
+            ),
+            _ => {
+                eprintln!("unknown table {name}");
+                std::process::exit(2);
             }
         };
-        let tab = |n: &str, t: &Vec<u8>| format!("def {n} : List Nat := [{}]\n", t.iter().map(|v| v.to_string()).collect::<Vec<_>>().join(", "));
-        let src = format!(
-            "/-! GENERATED by `c12 tables` from the current build of /repo: the level (0..100) that\n`SixelImageHandler::draw` writes into the palette definition for a source channel value 0..255,\nobserved by drawing single-colour images. Do not edit. -/\nnamespace SurfModel.Generated.SixelLevel\n{}{}{}end SurfModel.Generated.SixelLevel\n",
-            tab("levelR", &tabs[0]),
-            tab("levelG", &tabs[1]),
-            tab("levelB", &tabs[2])
-        );
         std::fs::write(cfg.outdir.join(format!("{name}.lean")), src).unwrap();
     }
+}
+
+// ---------------------------------------------------------------------------------------------
+// sessions: many images on ONE long-lived handler, every earlier image drawn again
+// ---------------------------------------------------------------------------------------------
+
+/// image `i` of the session with seed `seed`: mostly 48 x 128 noise with 64 colours (about 25 KB of sixel
+/// each, every band holds many colours, so a re-encoding almost surely orders the lines differently),
+/// some small ones in between
+fn session_image(seed: u64, i: usize) -> Image {
+    let mut rng = Rng::new(seed ^ (i as u64).wrapping_mul(0x9E37_79B9_7F4A_7C15));
+    let (w, h, ncol) = if i % 5 == 4 { (1 + rng.below(20) as usize, 6 + rng.below(20) as usize, 4) } else { (48, 128, 64) };
+    let pal = pick_palette(&mut rng, ncol, false);
+    let data: Vec<RGBA> = (0..w * h)
+        .map(|_| {
+            let c = *rng.pick(&pal);
+            RGBA::new(c[0], c[1], c[2], 255)
+        })
+        .collect();
+    Image::from_parts(data.into(), Shape::from(Size::new(h, w)))
+}
+
+/// Draws `count` images on one handler; after every `stride` images and at the end every image drawn so
+/// far is drawn again and must give the bytes of its first draw.  The total output stays below
+/// `limit` bytes (far below the 128 MiB budget of the cache), so no eviction can excuse a difference.
+fn run_session(out: &mut Out, seed: u64, count: usize, stride: usize, limit: usize) {
+    let mut handler = SixelImageHandler::new(None);
+    let mut firsts: Vec<Vec<u8>> = Vec::new();
+    let mut encoded = 0usize;
+    let mut redraws = 0u64;
+    for i in 0..count {
+        let img = session_image(seed, i);
+        let bytes = match draw(&mut handler, &img) {
+            Ok(b) => b,
+            Err(e) => {
+                out.fail("draw failed in a session", json!({"session_seed": seed, "count": i + 1, "stride": stride}), json!("Ok"), json!(e));
+                return;
+            }
+        };
+        encoded += bytes.len();
+        firsts.push(bytes);
+        if encoded > limit {
+            break;
+        }
+        if (i + 1) % stride == 0 || i + 1 == count {
+            for (j, first) in firsts.iter().enumerate() {
+                let again = draw(&mut handler, &session_image(seed, j)).unwrap_or_default();
+                redraws += 1;
+                if &again != first {
+                    let same_picture = match (decode(first), decode(&again)) {
+                        (Ok(a), Ok(b)) => a.pix == b.pix,
+                        _ => false,
+                    };
+                    out.fail(
+                        "an image drawn again later in a session on one handler emits different bytes",
+                        json!({"session_seed": seed, "count": i + 1, "stride": stride, "redrawn_image": j,
+                               "history": format!("new handler (no background); draw images 0..={i} of session_image(seed, k) (48x128 noise with 64 colours, every fifth small), then image {j} again"),
+                               "sixel_bytes_encoded_so_far": encoded, "same_picture": same_picture}),
+                        json!(hex(&first[..first.len().min(600)])),
+                        json!(hex(&again[..again.len().min(600)])),
+                    );
+                    return;
+                }
+            }
+        }
+    }
+    out.case(&format!("session {seed} {count} {stride}"), true);
+    out.hist("session");
+    out.extra(&format!("session_{seed}"), json!({"images": firsts.len(), "sixel_bytes": encoded, "redraws_checked": redraws}));
 }
 
 fn main() {
@@ -824,6 +901,12 @@ fn main() {
     let mut out = cfg.out();
     let rule = "one case = one image (size, pixels, background, crop) drawn twice on one handler and once on a fresh one; non-trivial = more than one colour register or a repeat count above 3; distinct by (visible pixels, size, background)";
     if let Some(r) = &cfg.replay {
+        let inp = &r["failure"]["input"];
+        if let (Some(seed), Some(count), Some(stride)) = (inp["session_seed"].as_u64(), inp["count"].as_u64(), inp["stride"].as_u64()) {
+            run_session(&mut out, seed, count as usize, (stride as usize).max(1), 64 << 20);
+            out.finish(rule);
+            return;
+        }
         if let Some(case) = Case::from_json(&r["failure"]["input"]) {
             // failures of the cache need a history: an image of the same shape with other pixels first
             let mut shared = Shared::new();
@@ -853,6 +936,15 @@ fn main() {
         let mut r = rng.fork();
         let px = gen_image(&mut r, w, h, 700, false);
         run_case(&mut out, &mut shared, &Case { w, h, px, bg: None, crop: None, tag: "subsampled".into() }, false);
+    }
+    // sessions: quick one of about 1.3 MiB of sixel output, thorough several up to about 12 MiB
+    // (the cache budget is 128 MiB: nothing may be evicted, every redraw must be byte-identical)
+    if cfg.thorough {
+        for k in 0..3 {
+            run_session(&mut out, rng.next(), 200 + 150 * k, 100, 16 << 20);
+        }
+    } else {
+        run_session(&mut out, rng.next(), 64, 32, 4 << 20);
     }
     let n = if cfg.thorough { 60_000 } else { 1_500 };
     for i in 0..n {
